@@ -88,6 +88,10 @@ code site AND another kind of trigger. Think about what a careful reviewer would
   - state kept on an object or module between two phases of the SAME call (an attribute set in one phase and read in another,
     a buffer reused across rounds, a cache that is invalidated one step too late or too early).
   (Diagnostics that misbehave only under DEBUG logging have been used several times already: do not use the logging level.)
+  Also consider: a change that is right for every input the library itself produces but wrong for a state or table a caller
+  builds by hand or restores from disk; an error or warning path (`warnings.warn`, `np.errstate`, an exception translated into
+  another one); behaviour tied to the *second* round of the main loop or to the round in which the loop stops; numerics that
+  are exact for small magnitudes and wrong for |x| > 1e154 or < 1e-154 (squares overflow / underflow).
 
 Already used (do not repeat these mechanisms or their near variants):
 
